@@ -421,6 +421,16 @@ func c04Bounded(p *Prog, rp *Report, lang *Rule, pos, why string) {
 	for _, k := range names {
 		fillProblems(lang, "malformed:"+k, pos, b.langBy[k], fmt.Sprintf("%s%d fields of this class are rejected", note, b.nClass[k]))
 	}
+	if hp, und := highByteProbe(p); und != "" {
+		tok.undecided("high-bytes", pos, und)
+	} else {
+		fillProblems(tok, "high-bytes", pos, hp, "a field with bytes >= 0x80 (0x85 and 0xA0 among them) inside every token kind parses to exactly those tokens")
+	}
+	if rp2, und := receiverReuse(p); und != "" {
+		tok.undecided("receiver-reuse", pos, und)
+	} else {
+		fillProblems(tok, "receiver-reuse", pos, rp2, "decoding into a Dependency that already holds a value replaces it and leaves earlier copies alone")
+	}
 	fillProblems(tok, "tokens", pos, b.tokens, fmt.Sprintf("%sin the trees parsed from %d accepted fields no token holds a blank, no name is empty; value xor error on %d runs", note, b.nClass["valid"], b.nValid+b.nMal))
 	var got []string
 	for o := range b.ops {
@@ -430,4 +440,82 @@ func c04Bounded(p *Prog, rp *Report, lang *Rule, pos, why string) {
 	want := []string{"<<", "<=", "=", ">=", ">>"}
 	ops.check(strings.Join(got, " ") == strings.Join(want, " "), "dependency.VersionRelation.Operator", pos, note+"stored operators: "+strings.Join(got, " "), fmt.Sprintf("the parser stores the operators %v, Policy has %v", got, want))
 	fillProblems(tot, "dependency.Parse", pos, b.total, fmt.Sprintf("%severy one of %d runs ends without a panic within the step limit", note, b.nValid+b.nMal))
+}
+
+// highByteProbe: bytes >= 0x80 (among them 0x85 and 0xA0, which are white space as code points but not as
+// bytes of a UTF-8 string) are ordinary token bytes: a field using them in every token kind parses to tokens
+// holding exactly those bytes.
+func highByteProbe(p *Prog) (problems []string, undecided string) {
+	parse := p.Func("dependency", "Parse")
+	if parse == nil {
+		return nil, "dependency.Parse not found"
+	}
+	probe := "caf\xc3\xa0:a\xc2\x85m (>= 1\xc2\xa0\xe9) [a\xc3\xa0 b\xff] <p\xc2\x85 !q\xa0>, ${v\xe9r\x85}"
+	m := NewMachine(p, nil)
+	st := initState(m, "dependency")
+	st.push(parse, []Val{probe}, nil)
+	out := m.Run(st)
+	if len(out) != 1 || out[0].Status != stRet {
+		return nil, retDesc(out)
+	}
+	tv, ok := st.Ret.(*TupleV)
+	if !ok || len(tv.E) != 2 {
+		return nil, "unexpected result shape"
+	}
+	if _, errNil := tv.E[1].(nilV); !errNil {
+		return []string{fmt.Sprintf("the field %q (bytes >= 0x80 inside every token kind) is rejected", probe)}, ""
+	}
+	r := deepRender(st, tv.E[0], 0)
+	for _, frag := range []string{"caf\xc3\xa0", "1\xc2\xa0\xe9", "p\xc2\x85", "q\xa0", "v\xe9r\x85"} {
+		if !strings.Contains(r, fmt.Sprintf("%q", frag)) {
+			problems = append(problems, fmt.Sprintf("the token %q of the field does not arrive byte for byte in the parsed tree (%s)", frag, clip(r, 240)))
+		}
+	}
+	return problems, ""
+}
+
+// receiverReuse: decoding into a Dependency / Arch that already holds a value replaces the value, and a copy
+// taken of the earlier value is not changed by the later decode.
+func receiverReuse(p *Prog) (problems []string, undecided string) {
+	depT := p.Named("dependency", "Dependency")
+	um := p.Method("dependency", "Dependency", "UnmarshalControl")
+	if depT == nil || um == nil {
+		return nil, "dependency.Dependency.UnmarshalControl not found"
+	}
+	m := NewMachine(p, nil)
+	st := initState(m, "dependency")
+	call := func(obj int, text string) string {
+		st.Status = stRun
+		st.Frames = nil
+		st.push(um, []Val{Ptr{Obj: obj}, text}, nil)
+		out := m.Run(st)
+		if len(out) != 1 || out[0].Status != stRet {
+			return retDesc(out)
+		}
+		if _, ok := st.Ret.(nilV); !ok {
+			return "rejected: " + text
+		}
+		return ""
+	}
+	first, second := "foo (>= 1.0), bar [amd64] | baz, qux", "one, two"
+	a := st.alloc(depT, zeroVal(depT))
+	if why := call(a, first); why != "" {
+		return nil, why
+	}
+	kept := cloneVal(st.Heap[a].V) // the caller's copy of the decoded value (shares the backing arrays, as in Go)
+	keptBefore := deepRender(st, kept, 0)
+	if why := call(a, second); why != "" {
+		return nil, why
+	}
+	fresh := st.alloc(depT, zeroVal(depT))
+	if why := call(fresh, second); why != "" {
+		return nil, why
+	}
+	if got, want := deepRender(st, st.Heap[a].V, 0), deepRender(st, st.Heap[fresh].V, 0); got != want {
+		problems = append(problems, fmt.Sprintf("decoding %q into a Dependency that held %q gives %s, a fresh one gives %s: the earlier relations are not replaced", second, first, clip(got, 200), clip(want, 200)))
+	}
+	if after := deepRender(st, kept, 0); after != keptBefore {
+		problems = append(problems, fmt.Sprintf("a copy of the value decoded from %q changes when the variable it was copied from is decoded into again: %s became %s", first, clip(keptBefore, 200), clip(after, 200)))
+	}
+	return problems, ""
 }
